@@ -9,7 +9,8 @@ molecule and recomputes, independently of the code under test,
   * orbital energies = eigenvalues of the Fock matrix rebuilt from the RETURNED density (the rebuild uses
     the repository's own `hcore` + `fock`/`fock_u_batch`: trusted here, checked by C06), ascending,
   * gap = e[nocc] - e[nocc-1] (per spin for UHF) with nocc from the valence-electron count,
-  * charges = core charge - block-diagonal populations of dm, summing to the molecular charge,
+  * charges = core charge - block-diagonal populations of dm, summing to the molecular charge
+    (1e-9 + 10 sp2_tol + 15 eps n_orb max(1, alpha/(1-alpha)): the mixed iterate of an ion keeps alpha^k of the charge),
   * dipole = sum_A q_A r_A - 2 sum_A D1_A P_{s,p}(A), D1 from the CSV exponents.
 
 It is used by props/c14_observable_consistency.py as the deciding oracle and can be attached in
@@ -289,7 +290,12 @@ def bundle(mol, es, sett, charges, mults, sp2_tol=None, do_fock=True):
         if upd("charges_from_dm", np.abs(q[b] - qind).max(), TOL_Q):
             viol.append({"clause": "charges-vs-density", "mech": None,
                          "detail": dict(wit, q=q[b].tolist(), independent=qind.tolist())})
-        if not nc[b] and upd("charge_sum", abs(q[b].sum() - ch), TOL_QSUM + sp2_allow):
+        # fixed mixing starts from neutral-atom populations: tr P_k - N_el = alpha^k * charge, and the stopping rule
+        # max|dP| <= 15 eps bounds it by 15 eps n_orb alpha/(1-alpha); one stopping-rule quantum for the other solvers
+        conv = list(sett.get("scf_converger", [2]))
+        amp = conv[1] / (1.0 - conv[1]) if (conv[0] == 0 and len(conv) > 1 and 0 < conv[1] < 1) else 1.0
+        qs_tol = TOL_QSUM + sp2_allow + 15.0 * float(sett.get("scf_eps", 0.0)) * max(norb, 1) * max(amp, 1.0)
+        if not nc[b] and upd("charge_sum", abs(q[b].sum() - ch), qs_tol):
             viol.append({"clause": "charge-sum", "mech": None, "detail": dict(wit, q_sum=float(q[b].sum()))})
         # ---- dipole ----------------------------------------------------------------------------
         if dip is not None and factor is not None:
